@@ -112,3 +112,113 @@ ENSURES(second_argument_shortcut_is_sound, (__CPROVER_return_value & 2) != 0)
 ENSURES(equal_arguments_shortcut_is_sound, (__CPROVER_return_value & 4) != 0)
 ENSURES(commutes_flag_is_sound, (__CPROVER_return_value & 8) != 0)
 ;
+
+/* ---- comparisons ------------------------------------------------------------------------------ */
+#define CMP_REQ() \
+    __CPROVER_requires(__CPROVER_is_fresh(fa, sizeof(*fa)) && __CPROVER_is_fresh(fb, sizeof(*fb))) \
+    __CPROVER_requires(fa->the_terminal_type == terminal_type__INTEGER && fb->the_terminal_type == terminal_type__INTEGER) \
+    __CPROVER_requires(a <= 0 && b <= 0 && a != INT_MIN && b != INT_MIN && verif_exc == 0)
+/* EV+ operand: (value, node) with node OMEGA_NORMAL (finite value) or OMEGA_INFINITY */
+#define EVP_REQ() \
+    __CPROVER_requires(__CPROVER_is_fresh(av, sizeof(*av)) && __CPROVER_is_fresh(bv, sizeof(*bv)) && av->mytype == edge_type__LONG && bv->mytype == edge_type__LONG) \
+    __CPROVER_requires((ap == OMEGA_NORMAL || ap == OMEGA_INFINITY) && (bp == OMEGA_NORMAL || bp == OMEGA_INFINITY) && verif_exc == 0)
+
+int lemma_cmp_eq_mt(struct forest *fa, struct forest *fb, node_handle a, node_handle b)
+CMP_REQ()
+__CPROVER_assigns(verif_exc)
+ENSURES(kernel_is_the_scalar_comparison, (__CPROVER_return_value & 1) != 0)
+ENSURES(equal_operands_give_the_reflexive_constant, (__CPROVER_return_value & 2) != 0)
+ENSURES(symmetric_flag_is_sound, (__CPROVER_return_value & 4) != 0)
+;
+int lemma_cmp_eq_evplus(const struct edge_value *av, node_handle ap, const struct edge_value *bv, node_handle bp)
+EVP_REQ()
+__CPROVER_assigns(verif_exc)
+ENSURES(kernel_orders_infinity_above_every_integer, (__CPROVER_return_value & 1) != 0)
+ENSURES(special_case_shortcut_is_sound, (__CPROVER_return_value & 2) != 0)
+ENSURES(equal_operands_give_the_reflexive_constant, (__CPROVER_return_value & 4) != 0)
+;
+int lemma_cmp_ne_mt(struct forest *fa, struct forest *fb, node_handle a, node_handle b)
+CMP_REQ()
+__CPROVER_assigns(verif_exc)
+ENSURES(kernel_is_the_scalar_comparison, (__CPROVER_return_value & 1) != 0)
+ENSURES(equal_operands_give_the_reflexive_constant, (__CPROVER_return_value & 2) != 0)
+ENSURES(symmetric_flag_is_sound, (__CPROVER_return_value & 4) != 0)
+;
+int lemma_cmp_ne_evplus(const struct edge_value *av, node_handle ap, const struct edge_value *bv, node_handle bp)
+EVP_REQ()
+__CPROVER_assigns(verif_exc)
+ENSURES(kernel_orders_infinity_above_every_integer, (__CPROVER_return_value & 1) != 0)
+ENSURES(special_case_shortcut_is_sound, (__CPROVER_return_value & 2) != 0)
+ENSURES(equal_operands_give_the_reflexive_constant, (__CPROVER_return_value & 4) != 0)
+;
+int lemma_cmp_gt_mt(struct forest *fa, struct forest *fb, node_handle a, node_handle b)
+CMP_REQ()
+__CPROVER_assigns(verif_exc)
+ENSURES(kernel_is_the_scalar_comparison, (__CPROVER_return_value & 1) != 0)
+ENSURES(equal_operands_give_the_reflexive_constant, (__CPROVER_return_value & 2) != 0)
+ENSURES(symmetric_flag_is_sound, (__CPROVER_return_value & 4) != 0)
+;
+int lemma_cmp_gt_evplus(const struct edge_value *av, node_handle ap, const struct edge_value *bv, node_handle bp)
+EVP_REQ()
+__CPROVER_assigns(verif_exc)
+ENSURES(kernel_orders_infinity_above_every_integer, (__CPROVER_return_value & 1) != 0)
+ENSURES(special_case_shortcut_is_sound, (__CPROVER_return_value & 2) != 0)
+ENSURES(equal_operands_give_the_reflexive_constant, (__CPROVER_return_value & 4) != 0)
+;
+int lemma_cmp_ge_mt(struct forest *fa, struct forest *fb, node_handle a, node_handle b)
+CMP_REQ()
+__CPROVER_assigns(verif_exc)
+ENSURES(kernel_is_the_scalar_comparison, (__CPROVER_return_value & 1) != 0)
+ENSURES(equal_operands_give_the_reflexive_constant, (__CPROVER_return_value & 2) != 0)
+ENSURES(symmetric_flag_is_sound, (__CPROVER_return_value & 4) != 0)
+;
+int lemma_cmp_ge_evplus(const struct edge_value *av, node_handle ap, const struct edge_value *bv, node_handle bp)
+EVP_REQ()
+__CPROVER_assigns(verif_exc)
+ENSURES(kernel_orders_infinity_above_every_integer, (__CPROVER_return_value & 1) != 0)
+ENSURES(special_case_shortcut_is_sound, (__CPROVER_return_value & 2) != 0)
+ENSURES(equal_operands_give_the_reflexive_constant, (__CPROVER_return_value & 4) != 0)
+;
+int lemma_cmp_lt_mt(struct forest *fa, struct forest *fb, node_handle a, node_handle b)
+CMP_REQ()
+__CPROVER_assigns(verif_exc)
+ENSURES(kernel_is_the_scalar_comparison, (__CPROVER_return_value & 1) != 0)
+ENSURES(equal_operands_give_the_reflexive_constant, (__CPROVER_return_value & 2) != 0)
+ENSURES(symmetric_flag_is_sound, (__CPROVER_return_value & 4) != 0)
+;
+int lemma_cmp_lt_evplus(const struct edge_value *av, node_handle ap, const struct edge_value *bv, node_handle bp)
+EVP_REQ()
+__CPROVER_assigns(verif_exc)
+ENSURES(kernel_orders_infinity_above_every_integer, (__CPROVER_return_value & 1) != 0)
+ENSURES(special_case_shortcut_is_sound, (__CPROVER_return_value & 2) != 0)
+ENSURES(equal_operands_give_the_reflexive_constant, (__CPROVER_return_value & 4) != 0)
+;
+int lemma_cmp_le_mt(struct forest *fa, struct forest *fb, node_handle a, node_handle b)
+CMP_REQ()
+__CPROVER_assigns(verif_exc)
+ENSURES(kernel_is_the_scalar_comparison, (__CPROVER_return_value & 1) != 0)
+ENSURES(equal_operands_give_the_reflexive_constant, (__CPROVER_return_value & 2) != 0)
+ENSURES(symmetric_flag_is_sound, (__CPROVER_return_value & 4) != 0)
+;
+int lemma_cmp_le_evplus(const struct edge_value *av, node_handle ap, const struct edge_value *bv, node_handle bp)
+EVP_REQ()
+__CPROVER_assigns(verif_exc)
+ENSURES(kernel_orders_infinity_above_every_integer, (__CPROVER_return_value & 1) != 0)
+ENSURES(special_case_shortcut_is_sound, (__CPROVER_return_value & 2) != 0)
+ENSURES(equal_operands_give_the_reflexive_constant, (__CPROVER_return_value & 4) != 0)
+;
+int lemma_evplus_mult_kernel(const struct edge_value *av, node_handle ap, const struct edge_value *bv, node_handle bp)
+EVP_REQ()
+__CPROVER_assigns(verif_exc)
+ENSURES(kernel_is_the_scalar_operation_with_infinity, __CPROVER_return_value == 1)
+;
+int lemma_evplus_div_kernel(const struct edge_value *av, node_handle ap, const struct edge_value *bv, node_handle bp)
+EVP_REQ()
+__CPROVER_assigns(verif_exc)
+ENSURES(kernel_is_the_scalar_operation_with_infinity, __CPROVER_return_value == 1)
+;
+int lemma_evplus_mod_kernel(const struct edge_value *av, node_handle ap, const struct edge_value *bv, node_handle bp)
+EVP_REQ()
+__CPROVER_assigns(verif_exc)
+ENSURES(kernel_is_the_scalar_operation_with_infinity, __CPROVER_return_value == 1)
+;
